@@ -24,6 +24,14 @@ def cells(f):
     return out
 
 
+def render_matches(f):
+    """the terminal string of a FmtStr (str(f), possibly memoised) displays exactly the cells its runs describe"""
+    if isinstance(f, str):
+        return True
+    r = sgr_interpret(str(f))
+    return r is not None and r[0] == cells(f) and r[1] == {}
+
+
 def cells_of_rows(rows):
     return [cells(r) for r in rows]
 
